@@ -236,6 +236,9 @@ pub struct TableSpec {
     /// object store (one per partition) behind a listing table
     pub storage: Option<String>,
     pub row_group: usize,
+    /// file-backed tables only: hive layout, one directory per value of k (`<table>/k=<k>/part-<p>.<ext>`),
+    /// k not stored in the files; only used when no row has a NULL k
+    pub hive: bool,
     /// `Some((column, n))`: the table is exposed through a view whose `column` goes through the
     /// identity UDF `boom`, which fails at the evaluation that covers its n-th row (0-based)
     pub udf_fault: Option<(String, u64)>,
@@ -259,6 +262,7 @@ pub fn parse_tables(v: &Value) -> Option<Vec<TableSpec>> {
                 None => None,
             },
             row_group: t.get("row_group").and_then(|x| x.as_u64()).unwrap_or(1000).clamp(1, 1 << 20) as usize,
+            hive: t.get("hive").and_then(|x| x.as_bool()).unwrap_or(false),
             udf_fault: match t.get("udf_fault") {
                 None | Some(Value::Null) => None,
                 Some(f) => {
@@ -357,13 +361,31 @@ pub async fn register_file_tables(sess: &SimSession, tables: &[TableSpec], store
         if all_rows(&t.scripts).is_empty() {
             continue;
         }
+        let hive = t.hive && all_rows(&t.scripts).iter().all(|r| r.k.is_some());
+        // (partition p, Some(k) in hive layout) -> rows of one file
+        let mut files: Vec<(usize, Option<i32>, Vec<Row>)> = vec![];
         for (p, script) in t.scripts.iter().enumerate() {
             let rows: Vec<Row> = script.iter().filter_map(|s| if let Step::Batch(r) = s { Some(r.clone()) } else { None }).flatten().collect();
+            if !hive {
+                files.push((p, None, rows));
+            } else {
+                let mut by_k: std::collections::BTreeMap<i32, Vec<Row>> = Default::default();
+                for r in rows {
+                    by_k.entry(r.k.unwrap_or(0)).or_default().push(r);
+                }
+                files.extend(by_k.into_iter().map(|(k, rows)| (p, Some(k), rows)));
+            }
+        }
+        for (p, hive_k, rows) in files {
             if rows.is_empty() {
                 continue;
             }
             let bytes: Vec<u8> = if fmt == "parquet" {
-                let batch = crate::data::rows_to_batch(&rows);
+                let mut batch = crate::data::rows_to_batch(&rows);
+                if hive_k.is_some() {
+                    // the partition column lives in the path, not in the file
+                    batch = batch.project(&[0, 2, 3]).map_err(|e| e.to_string())?;
+                }
                 let props = datafusion::parquet::file::properties::WriterProperties::builder().set_max_row_group_row_count(Some(t.row_group.max(1))).build();
                 let mut buf = vec![];
                 let mut w = datafusion::parquet::arrow::ArrowWriter::try_new(&mut buf, batch.schema(), Some(props)).map_err(|e| e.to_string())?;
@@ -375,7 +397,9 @@ pub async fn register_file_tables(sess: &SimSession, tables: &[TableSpec], store
                     .map(|r| {
                         let mut m = serde_json::Map::new();
                         m.insert("id".into(), json!(r.id));
-                        m.insert("k".into(), json!(r.k));
+                        if hive_k.is_none() {
+                            m.insert("k".into(), json!(r.k));
+                        }
                         m.insert("s".into(), json!(r.s));
                         m.insert("v".into(), json!(r.v));
                         format!("{}\n", Value::Object(m))
@@ -383,11 +407,19 @@ pub async fn register_file_tables(sess: &SimSession, tables: &[TableSpec], store
                     .collect::<String>()
                     .into_bytes()
             };
-            let path = Path::from(format!("{}/part-{p}.{fmt}", t.name));
+            let path = match hive_k {
+                Some(k) => Path::from(format!("{}/k={k}/part-{p}.{fmt}", t.name)),
+                None => Path::from(format!("{}/part-{p}.{fmt}", t.name)),
+            };
             st.inner.put(&path, PutPayload::from(bytes)).await.map_err(|e| e.to_string())?;
         }
         let stored = if fmt == "parquet" { "PARQUET" } else { "JSON" };
-        let ddl = format!("CREATE EXTERNAL TABLE {} (id BIGINT NOT NULL, k INT, s VARCHAR, v BIGINT) STORED AS {stored} LOCATION 'sim://bucket/{}/'", t.name, t.name);
+        let ddl = if hive {
+            sim::probe("probe.hive_partitioned_table");
+            format!("CREATE EXTERNAL TABLE {} (id BIGINT NOT NULL, s VARCHAR, v BIGINT, k INT) STORED AS {stored} PARTITIONED BY (k) LOCATION 'sim://bucket/{}/'", t.name, t.name)
+        } else {
+            format!("CREATE EXTERNAL TABLE {} (id BIGINT NOT NULL, k INT, s VARCHAR, v BIGINT) STORED AS {stored} LOCATION 'sim://bucket/{}/'", t.name, t.name)
+        };
         sess.ctx.sql(&ddl).await.map_err(|e| format!("{ddl}: {e}"))?;
     }
     Ok(Some(st))
@@ -419,8 +451,8 @@ pub fn generate_file_cfg(rng: &mut Rng, knobs: &mut Value) {
     if rng.chance(1, 4) {
         set("datafusion.execution.parquet.metadata_size_hint", json!(*rng.pick(&[8u64, 64, 524_288])));
     }
-    if rng.chance(1, 6) {
-        set("datafusion.optimizer.preserve_file_partitions", json!(*rng.pick(&[0u64, 1, 2])));
+    if rng.chance(1, 3) {
+        set("datafusion.optimizer.preserve_file_partitions", json!(*rng.pick(&[0u64, 1, 1, 2, 4])));
     }
     if rng.chance(1, 6) {
         set("datafusion.execution.meta_fetch_concurrency", json!(*rng.pick(&[1u64, 2, 32])));
@@ -760,6 +792,27 @@ pub fn nlj_left_reexecution_over_file_scan(plan: &Arc<dyn ExecutionPlan>) -> boo
         }
     }
     plan.children().iter().any(|c| nlj_left_reexecution_over_file_scan(c))
+}
+
+/// Known finding (C02): with `preserve_file_partitions >= 1` a hive-partitioned listing table declares
+/// `Hash([k], n)` for file groups that are grouped by partition *value*; a partitioned join then takes
+/// that side as it is and pairs file group i with hash bucket i of the other (hash-repartitioned) side.
+/// True if some join has an input that reaches a file scan declaring Hash partitioning without a
+/// RepartitionExec in between.
+pub fn join_over_value_grouped_file_scan(plan: &Arc<dyn ExecutionPlan>) -> bool {
+    fn reaches_hash_scan(p: &Arc<dyn ExecutionPlan>) -> bool {
+        if p.name() == "RepartitionExec" {
+            return false;
+        }
+        if p.name() == "DataSourceExec" {
+            return matches!(p.properties().partitioning, datafusion_physical_expr::Partitioning::Hash(_, _));
+        }
+        p.children().iter().any(|c| reaches_hash_scan(c))
+    }
+    if plan.name().contains("Join") && plan.children().iter().any(|c| reaches_hash_scan(c)) {
+        return true;
+    }
+    plan.children().iter().any(|c| join_over_value_grouped_file_scan(c))
 }
 
 pub fn nlj_fallback_kind(plan: &Arc<dyn ExecutionPlan>) -> Option<&'static str> {
